@@ -355,6 +355,8 @@ int convert_msa_to_internal(struct msa* msa, int type)
                                 WARNING_MSG("there should be no character not matching the alphabet");
                                 WARNING_MSG("offending character: >>>%c<<<", seq->seq[j]);
                                 /* exit(0); */
+                                /* treat as the ambiguity code instead of leaving s[j] uninitialised */
+                                seq->s[j] = t[(type == ALPHA_defDNA) ? 'N' : 'X'];
                         }else{
                                 seq->s[j] = t[(int) seq->seq[j]];
                         }
